@@ -42,8 +42,11 @@ for pid in ids:
         technique = ("Coq proof over an atomic-step model of database.py (crash = any prefix), vm_compute instance obligations on "
                      "the SQL scripts regenerated from /repo, exhaustive crash-point correspondence against the real code")
     else:
-        technique = ("Coq proof (inductive invariant / exact step characterisation / two-run theorem) about an executable Gallina "
-                     "model + differential correspondence with /repo + trace monitor for failing-input search")
+        technique = ("Coq proof (inductive invariant / exact step characterisation / history-level and two-run theorems, crashes at "
+                     "every commit boundary included) about an executable Gallina model + differential correspondence with /repo "
+                     "(random, scripted and scale streams; harness validated against real kills and real WebSockets) + trace "
+                     "monitors, metamorphic re-runs and real-fault streams (database locks, WebSocket closing window) on the real "
+                     "code for failing-input search")
     checks.append({
         "property_id": pid,
         "quick_cmd": "./check %s --tier quick" % pid,
@@ -56,7 +59,7 @@ for pid in ids:
         "level_note": NOTE,
         "technique": technique,
     })
-fixes = "812f825 aa38ff1 f4ffb42 20afac0 52b9a0a a6fd4b8"
+fixes = "812f825 aa38ff1 f4ffb42 20afac0 52b9a0a a6fd4b8 692c76e 91e37a3"
 m = {
     "version": 1,
     "setup_cmd": "./check build",
@@ -69,7 +72,8 @@ m = {
         {"name": "coq-model", "path": "coq/theories",
          "serves_properties": [c["property_id"] for c in checks if c["engine"] == "coq-model"],
          "kind_free_text": "Gallina model of server.py/server_websocket.py/server_tap.py + theorems (Coq 8.16.1), extracted runner "
-                           "ocaml/modelrun, Python harness driving the real server (harness/world.py, gen.py, streams.py, monitors.py, metamorphic.py)"},
+                           "ocaml/modelrun, Python harness driving the real server (harness/world.py, gen.py, scripts.py, streams.py, monitors.py, "
+                           "metamorphic.py, faults.py, validity.py, loopback.py)"},
         {"name": "coq-dbfiles", "path": "coq/theories/DbFiles.v",
          "serves_properties": [c["property_id"] for c in checks if c["engine"] == "coq-dbfiles"],
          "kind_free_text": "Gallina model of database.py + theorems, evaluated by vm_compute; harness/dbfiles.py enumerates every crash "
